@@ -424,7 +424,13 @@ fn run_any(rep: &mut Report, fname: &str, interp: Interp, ratios: &Ratios, label
             }
         };
     }
-    frame_types!(go);
+    let r = vmon::catch(std::panic::AssertUnwindSafe(|| {
+        frame_types!(go);
+    }));
+    if let Err(m) = r {
+        rep.violation(&format!("converter|{:?}|panic", interp), format!("{} {} len {:?} ctor {}: panicked: {}", fname, label, src_len, ctor, m), format!("fmt={};interp={:?};ratios={};len={};n={};ctor={}", fname, interp, label, src_len.map(|l| l as i64).unwrap_or(-1), n_out, ctor));
+        return false;
+    }
     ok
 }
 
@@ -535,7 +541,7 @@ fn main() {
     rep.exhaustive(format!("{} constant ratios (16 dyadic, 9 non-dyadic) x source lengths 0..={} (every length thorough, 1/3 quick) + infinite x {{floor, linear}} x 6 frame types x 4 constructors", consts.len(), max_len));
 
     // ---- varying ratios: setters and mul_hz
-    let n_var = cli.t(300u64, 6_000u64);
+    let n_var = cli.t(300u64, 300_000u64);
     let reps = vmon::par_for(cli.threads, n_var, 4, |_| Report::new("C08", "w"), |rep, i| {
         let mut rng = Rng::derive(cli.seed, &[88, i]);
         let which = rng.usize_below(5);
@@ -565,7 +571,7 @@ fn main() {
     }
 
     // ---- long runs for drift (f64 frames hold an unbounded ramp)
-    let long = cli.t(200_000u64, 2_000_000u64);
+    let long = cli.t(200_000u64, 20_000_000u64);
     for (label, r) in [("c44k1_48k", 44_100.0 / 48_000.0), ("c0.1", 0.1), ("cpi_2", std::f64::consts::FRAC_PI_2), ("c1+ulp", 1.0 + 2.0 * U), ("c0.75", 0.75)] {
         run_any(&mut rep, "f64", Interp::Linear, &Ratios::Const(r), label, None, long, 0);
         run_any(&mut rep, "f64", Interp::Floor, &Ratios::Const(r), label, None, long, 0);
